@@ -25,7 +25,7 @@ rm -f $demo $pkgdir/*_helper_test.go
 echo "== full suite WITH change (expect only TestDecodeStore to fail)" >> $out
 go build ./... >> $out 2>&1; rb=$?
 go test -vet=off -count=1 -timeout 25m ./... 2>&1 | grep -E '^(FAIL|---|panic)' >> $out
-fails=$(grep -E '^--- FAIL' $out | grep -v 'TestDecodeStore' | grep -v -i 'seed' | wc -l)
+fails=$(sed -n '/== full suite WITH change/,$p' $out | grep -E '^--- FAIL' | grep -v 'TestDecodeStore' | wc -l)
 echo "RESULT name=$name demo_with=$r1 demo_without=$r2 build=$rb other_suite_failures=$fails" | tee -a $out
 python3 - <<PY
 import json
